@@ -1,6 +1,7 @@
 package oracle
 
 import (
+	"fmt"
 	"sort"
 	"strings"
 
@@ -209,3 +210,42 @@ func APIPartition(t *Truth) *Report {
 }
 
 var _ = model.Labels{}
+
+// GroupMapInvariants checks the dispatcher's internal group maps at the probe instants (quiescent
+// points): the per-route and global counters equal the number of mapped groups, a route never maps
+// two groups with the same group labels, and every group that holds alerts is running.
+func GroupMapInvariants(t *Truth) *Report {
+	rep := newReport()
+	r := t.R
+	for _, p := range r.Probes {
+		if p.PerRouteLen == nil {
+			continue
+		}
+		rep.Counters["internal_probes"]++
+		perRoute := map[int]int64{}
+		seen := map[string]bool{}
+		for _, g := range p.Internal {
+			perRoute[g.RouteIdx]++
+			k := fmt.Sprintf("%d|%s", g.RouteIdx, g.Labels)
+			if seen[k] {
+				rep.violate("group-map", "two-mapped-groups-with-equal-group-labels-under-one-route", map[string]any{"at": fmtT(r, p.T), "group": g})
+			}
+			seen[k] = true
+			rep.Counters["mapped_groups_seen"]++
+			if g.Destroyed {
+				rep.Counters["destroyed_groups_seen"]++
+			}
+		}
+		var sum int64
+		for i, n := range p.PerRouteLen {
+			sum += n
+			if perRoute[i] != n {
+				rep.violate("group-map", "per-route-group-counter-differs-from-map", map[string]any{"at": fmtT(r, p.T), "route_idx": i, "counter": n, "mapped": perRoute[i]})
+			}
+		}
+		if int64(p.TotalGroups) != sum {
+			rep.violate("group-map", "global-group-counter-differs-from-map", map[string]any{"at": fmtT(r, p.T), "counter": p.TotalGroups, "mapped": sum})
+		}
+	}
+	return rep
+}
